@@ -32,6 +32,18 @@ def codec_oracle(out, rng, n):
                     if back != st:
                         viol.append(('lamp-roundtrip', st, back, st))
                     out.add_case(('lamp', a, b_, c, d), True)
+    # the same table with the four lamps listed in any order: a lamp state belongs to its key, not to its position
+    import itertools
+    perms = list(itertools.permutations(KEYS))
+    for a in range(5):
+        for b_ in range(5):
+            for c in range(5):
+                for d in range(5):
+                    st = dict(pl=a, awl=b_, rsl=c, mil=d)
+                    for perm in (perms[(a * 7 + b_ * 5 + c * 3 + d) % 24], perms[rng.randrange(24)]):
+                        data = DtcLamp().get_data({k: st[k] for k in perm})
+                        if list(data) != R.ref_lamp_bytes(st):
+                            viol.append(('lamp-bytes-keys-in-another-order', {k: st[k] for k in perm}, list(data), R.ref_lamp_bytes(st)))
 
     class FakeCa:
         def __init__(s): s.sent = None
@@ -144,7 +156,8 @@ def runner(sc):
             events.append(('call', sim.now, dt))
             if sc.get('stop_mode') == 'self' and len(calls) == sc['stop_at_call']:
                 stop()
-            return (dict(zip(KEYS, sc['lamps'])), [dict(spn=s, fmi=f, oc=o) for s, f, o in dt])
+            order = [KEYS[(i + k) % 4] for i in range(4)]            # the lamp dictionary is built in a different key order each cycle
+            return ({kk: sc['lamps'][KEYS.index(kk)] for kk in order}, [dict(spn=s, fmi=f, oc=o) for s, f, o in dt])
 
         def stop():
             dmA.stop_send(src)
